@@ -330,6 +330,9 @@ def run(tier, seed):
     for ob in obligations:
         if ob.get("verdict") == "violation":
             attach_replay(ob)
+    # the replicated cache table that holds the sessions (its own native twin: harness/hist_cache.rs)
+    from . import c16cache
+    obligations.append(c16cache.run(tier, seed))
     info["wall_s"] = round(time.time() - t0, 1)
     return {"obligations": obligations, "info": info}
 
